@@ -6,8 +6,7 @@
    kind 1: arbitrary bytes: delivery equals the content of the whole stream
    (chunking independence); an invalid length => disconnect, and only frames in
    front of it were delivered. *)
-Definition prop_stream (c : Z * Z * list bytes * list bytes * (list bytes * bytes * Z)) : bool :=
-  let '(kind, max, chunks, intended, obs) := c in
+Definition prop_stream_obs (kind max : Z) (chunks intended : list bytes) (obs : list bytes * bytes * Z) : bool :=
   let '(d, b, code) := obs in
   if kind =? 0 then
     forallb (frame_okb max) intended
@@ -19,6 +18,12 @@ Definition prop_stream (c : Z * Z * list bytes * list bytes * (list bytes * byte
     | (fs, Bad) => (code =? 1) && is_prefix d fs
     | (_, NoFuel) => false
     end.
+(* obs: decodeData over a persistent buffer; obs2: the same reads through the real
+   readLoop (None = byte-identical to obs). Both must satisfy the property. *)
+Definition prop_stream (c : Z * Z * list bytes * list bytes * (list bytes * bytes * Z) * option (list bytes * bytes * Z)) : bool :=
+  let '(kind, max, chunks, intended, obs, obs2) := c in
+  prop_stream_obs kind max chunks intended obs
+  && match obs2 with None => true | Some o2 => prop_stream_obs kind max chunks intended o2 end.
 Definition pf_stream := Eval vm_compute in failing prop_stream cases_stream.
 Print pf_stream.
 
@@ -56,3 +61,20 @@ Definition prop_pool (c : Z * list bytes * list (bytes * decoded) * Z * (list by
   else eqb_frames h (firstn (Z.to_nat fault) frames) && (2 <=? code) && (code <=? 5).
 Definition pf_pool := Eval vm_compute in failing prop_pool cases_pool.
 Print pf_pool.
+
+(* large frames: a stream of well-formed messages, one of them above 32 KiB and
+   followed at once by further ones, every read boundary inside a frame: the real
+   readLoop delivers, and the real pool handles, exactly those messages in order
+   (compared as length + fingerprint), nothing is left in the buffer, no disconnect *)
+Definition eqb_zz (a b : Z * Z) : bool := (fst a =? fst b) && (snd a =? snd b).
+Definition big_frame (p : Z * Z) : bytes := [84; 83; 84; 65] ++ le_bytes 4 (snd p) ++ gen_bytes (fst p) (snd p).
+Definition len_fp (f : bytes) : Z * Z := (blen f, fingerprint f).
+Definition prop_big (c : Z * list (Z * Z) * list (Z * Z) * (list (Z * Z) * Z * Z) * (list (Z * Z) * Z)) : bool :=
+  let '(max, specs, lens, obs, pobs) := c in
+  let expected := map (fun p => len_fp (big_frame p)) specs in
+  let '(od, obl, ocode) := obs in
+  forallb (fun p => frame_okb max (big_frame p)) specs
+  && eqb_list eqb_zz od expected && (obl =? 0) && (ocode =? 0)
+  && eqb_list eqb_zz (fst pobs) expected && (snd pobs =? 0).
+Definition pf_big := Eval vm_compute in failing prop_big cases_big.
+Print pf_big.
